@@ -5,6 +5,7 @@ pub mod c09;
 pub mod c10;
 pub mod c11;
 pub mod c17;
+pub mod c19;
 pub mod c20;
 
 pub fn run(prop: &str, tier: Tier) -> Report {
@@ -15,6 +16,7 @@ pub fn run(prop: &str, tier: Tier) -> Report {
         "C10" => c10::run(tier),
         "C11" => c11::run(tier),
         "C17" => c17::run(tier),
+        "C19" => c19::run(tier),
         "C20" => c20::run(tier),
         _ => {
             eprintln!("unknown property {prop}");
@@ -30,6 +32,7 @@ pub fn replay(prop: &str, _tier: Tier, case: &serde_json::Value) -> Vec<Violatio
         "C10" => c10::replay(case),
         "C11" => c11::replay(case),
         "C17" => c17::replay(case),
+        "C19" => c19::replay(case),
         "C20" => c20::replay(case),
         _ => {
             eprintln!("unknown property {prop}");
